@@ -87,3 +87,68 @@ def has_td(t):
         return True
     args = getattr(t, "__args__", None) or ()
     return any(has_td(a) for a in args if a is not Ellipsis and a != ())
+
+
+# ---------------------------------------------------------------------------------------------------
+# C05: the witness (tightness) oracle on real objects — twin of Lean `witnessed` (Model/Witness.lean)
+
+def _exact(vs, cls):
+    return [v for v in vs if type(v) is cls]
+
+
+def witnessed(e, vs, t):
+    """every alternative of `t` is inhabited by some value of `vs` at the corresponding position;
+    `e` = an empty container was observed at the parent position (the only licence for Any)"""
+    if t is typing.Any:
+        return bool(e)
+    if is_anon_td(t):
+        ds = _exact(vs, dict)
+        if not ds:
+            return False
+        req, opt = td_fields(t)
+        for k, kt in req.items():
+            if not all(k in d for d in ds):
+                return False
+            if not witnessed(False, [d[k] for d in ds if k in d], kt):
+                return False
+        for k, kt in opt.items():
+            if all(k in d for d in ds) or not any(k in d for d in ds):
+                return False
+            if not witnessed(False, [d[k] for d in ds if k in d], kt):
+                return False
+        return True
+    origin = typing.get_origin(t)
+    if origin is typing.Union:
+        return len(t.__args__) > 0 and all(witnessed(e, vs, a) for a in t.__args__)
+    if t is typing.Callable:
+        return any(type(v) in _CALLABLE_TYPES for v in vs)
+    if origin is not None:
+        args = t.__args__
+        if origin is list or origin is set:
+            ls = _exact(vs, origin)
+            return bool(ls) and witnessed(any(len(x) == 0 for x in ls), [y for x in ls for y in x], args[0])
+        if origin is dict or origin is collections.defaultdict:
+            ds = _exact(vs, origin)
+            if not ds:
+                return False
+            emp = any(len(d) == 0 for d in ds)
+            return (witnessed(emp, [k for d in ds for k in dict.keys(d)], args[0])
+                    and witnessed(emp, [x for d in ds for x in dict.values(d)], args[1]))
+        if origin is tuple:
+            if len(args) == 2 and args[1] is Ellipsis:
+                return False
+            n = 0 if args == ((),) else len(args)
+            tups = [v for v in _exact(vs, tuple) if len(v) == n]
+            if not tups:
+                return False
+            return all(witnessed(False, [tp[i] for tp in tups], args[i]) for i in range(n))
+        if origin is type:
+            return any(issubclass(type(v), type) and v is args[0] for v in vs)
+        if origin is collections.abc.Iterator:
+            return args[0] is typing.Any and any(type(v) is types.GeneratorType for v in vs)
+        return False
+    if isinstance(t, type):
+        if t is types.FunctionType:
+            return False
+        return any(type(v) is t for v in vs)
+    return False
